@@ -413,7 +413,7 @@ func parseRule(node *yaml.Node, offsetLine, offsetColumn int, contentLines []str
 		return rule, false
 	}
 
-	if recordPart != nil && !model.IsValidMetricName(model.LabelValue(recordPart.Value)) {
+	if recordPart != nil && (!model.IsValidMetricName(model.LabelValue(recordPart.Value)) || strings.ContainsAny(recordPart.Value, "{}")) {
 		return Rule{
 			Lines: lines,
 			Error: ParseError{
